@@ -50,14 +50,14 @@ def judge(req, impl, f, prev):
 
 
 SPEC = dict(
-    prop='C08', lean_mod='Rivia.Props.C08', gen=gen, judge=judge, continue_after_known=True,
+    prop='C08', lean_mod='Rivia.Props.C08,Rivia.Props.C08F', gen=gen, judge=judge, continue_after_known=True,
     pure_ops=('entries', 'paths', 'dirs', 'files', 'all_paths', 'all_dirs', 'all_files'),
     foreign_classes=('chmod_zero', 'empty_lines_noop', 'sym_kind_specific_clauses', 'sym_malformed', 'moved_link_rel_stale'),
     rule='random trees x the cross-product of entries() options (min 0-3 x max 0-3/inf x {all,dirs,files} x follow x {unsorted,sort,dirs_first,files_first} x contents_first x descriptor cap): '
-         'results compared with the Lean stack-machine model (all options incl. follow and link loops) and, for follow = false, with the recursive walk specification Spec.entriesSpec; unsorted results as multisets; '
+         'results compared with the Lean stack-machine model (all options incl. follow and link loops) and with the recursive walk specifications Spec.entriesSpec (follow = false) and Spec.entriesSpecF (follow = true: followed links, contents of the target once per followed link, LinkLooping on a cycle); unsorted results as multisets; '
          'listing helpers against the reference tree filesystem. distinct = distinct (pre-state, call) pairs',
-    assumptions=['Memfs only (Stdfs read_dir order and races are not modelled)', 'follow = true is compared with the stack-machine model only (no recursive specification yet); equal-name ties under follow are order dependent'],
-    trusted_base=['hand transcription Rust->Lean of entries.rs / entry_iter.rs / MemfsEntryIter (checked by the correspondence run)', 'walk specification Rivia/Spec/Walk.lean', 'Rust harness + Python driver'],
+    assumptions=['Memfs only (Stdfs read_dir order and races are not modelled)', 'equal-name ties under follow are order dependent (compared as multisets)', 'with follow the loop check fires even at the max_depth limit where nothing would be entered (the specification mirrors this; recorded as an observation)'],
+    trusted_base=['hand transcription Rust->Lean of entries.rs / entry_iter.rs / MemfsEntryIter (checked by the correspondence run)', 'walk specifications Rivia/Spec/Walk.lean and Rivia/Spec/WalkFollow.lean', 'Rust harness + Python driver'],
 )
 
 
